@@ -24,7 +24,7 @@ BASE = dict(
                              dict(el='D', q=0, n=1e17, t=10., v=(0, 0, 0), gn=(0, 0, 0), gt=(0, 0, 0)),
                              dict(el='C', q=6, n=1e18, t=800., v=(0, 2e4, 0), gn=(0, 0.1, 0), gt=(0, 0, 0)),
                              dict(el='C', q=5, n=1e17, t=800., v=(0, 2e4, 0), gn=(0, 0.1, 0), gt=(0, 0, 0))],
-                atomic_data='A', geometry=('box', 1.0, 1.0, 1.0), geometry_transform=None, integrator_step=0.1,
+                atomic_data='A', geometry=('box', 1.0, 1.0, 1.0), geometry_transform='none', integrator_step=0.1,
                 models=[('exc', ('C', 5, (8, 7))), ('rec', ('C', 5, (8, 7))), ('tcx', ('C', 5, (8, 7))), ('brems',), ('trp', 'C', 5)]),
     beam=dict(parent='mid', transform=('c', ('t', 0, 0, -1.5), ('rx', 3.0)), atomic_data='A', energy=60000., power=1e6,
               temperature=10., element='D', sigma=0.05, divergence_x=0.5, divergence_y=0.5, length=3.0,
@@ -108,8 +108,9 @@ def mutators(S):
         lambda L, v: setattr(L.plasma, 'atomic_data', L.data[v]), setc(P, 'atomic_data'))
     reg('plasma.geometry', lambda r, c: _other(r, GEOMS, tuple(c[P]['geometry'])),
         lambda L, v: setattr(L.plasma, 'geometry', S.geometry(v)), setc(P, 'geometry'))
-    reg('plasma.geometry_transform', lambda r, c: _other(r, TRANSFORMS, c[P]['geometry_transform']),
-        lambda L, v: setattr(L.plasma, 'geometry_transform', S.mat(v) if v else None), setc(P, 'geometry_transform'))
+    # 'none' = no geometry transform (None is reserved for "generator has no value to offer")
+    reg('plasma.geometry_transform', lambda r, c: _other(r, ['none'] + TRANSFORMS[1:], c[P]['geometry_transform']),
+        lambda L, v: setattr(L.plasma, 'geometry_transform', S.mat(v) if v != 'none' else None), setc(P, 'geometry_transform'))
     reg('plasma.integrator', lambda r, c: _other(r, [0.1, 0.07, 0.05], c[P]['integrator_step']),
         lambda L, v: setattr(L.plasma, 'integrator', NumericalIntegrator(step=v)), setc(P, 'integrator_step'))
     reg('plasma.models', lambda r, c: _other(r, PMODELS, c[P]['models']),
